@@ -60,7 +60,7 @@ PROPS = {
         'not_decided': ['pickle path beyond the v1-expressible subset'],
     },
     'C13': {
-        'families': ['contracts.native'],
+        'families': ['contracts.hints', 'contracts.native'],
         'level': 'other',
         'technique': 'bounded native run of the faithfulness contract (stand-in; totality contracts on serialize_to_python in progress)',
         'text': 'exec() of the rendered hint text defines mutations with the same signature effect and the same generated SQL as the '
